@@ -12,3 +12,6 @@ def run(ctx):
     read_input(ctx, ['read.counters', 'read.locations', 'read.only_objects_and_arrays'])
     files(ctx)
     go_chain(ctx, want=('go.inputs',), files_only=True)
+    from ..scen_stages import stage_steps
+    from ..scen_ctx import contexts
+    stage_steps(ctx, want=('contract',)); contexts(ctx)      # every stage hands on a context derived from the one it received (the input context travels with it)
